@@ -64,6 +64,10 @@ func inWorld(rt *rapid.T, opt hlsim.Options, body func(rt *rapid.T, w *hlsim.Wor
 		} else if opt.BannerFile == "" && rapid.Bool().Draw(rt, "bannerConfigured") {
 			opt.BannerFile = "banner.jpg"
 		}
+		// ... and may have written the account files by hand, listing only the privileges an account has
+		if !opt.SparseAccountFiles {
+			opt.SparseAccountFiles = rapid.IntRange(0, 3).Draw(rt, "handWrittenAccountFiles") == 0
+		}
 		w, err := hlsim.New(worldBase(), opt)
 		if err != nil {
 			rt.Fatalf("harness: building world: %v", err)
